@@ -125,7 +125,14 @@ func (w *world) mk(key string, sh, bh int64, prev *prec, prevKey string, treeOK 
 	if stateHeightMismatch {
 		mh = bh + 1
 	}
-	m := base.NewDummyBlockMap(base.NewDummyManifest(base.Height(mh), valuehash.RandomSHA256()))
+	// the manifest commits to the states tree: SuffrageProof.Prove compares the proof's root with it
+	manifest := base.NewDummyManifest(base.Height(mh), valuehash.RandomSHA256())
+	if nodes := proof.Nodes(); len(nodes) > 0 && (treeOK || sh%2 == 0) {
+		manifest.SetStatesTree(nodes[len(nodes)-1].Hash())
+	} else {
+		manifest.SetStatesTree(valuehash.RandomSHA256()) // bad tree, second flavour: foreign root
+	}
+	m := base.NewDummyBlockMap(manifest)
 	sp := isaacblock.NewSuffrageProof(m, st, proof)
 	r := prec{SH: sh, BH: bh, SID: w.nextID, SPrev: sprev, TreeOK: treeOK, key: key}
 	w.nextID++
@@ -259,6 +266,12 @@ func genCases(w *world, seed uint64, n int) []ccase {
 	for k := 1; k < 14; k++ {
 		sameHeight[k] = w.mk(fmt.Sprintf("S%d", k), int64(k), A[k-1].BH, &A[k-1], A[k-1].key, true, false)
 	}
+	// a state without previous hash at a non-genesis block: valid for BaseState.IsValid, and
+	// SuffrageProof.Prove calls Previous().Equal() on it
+	nilPrev := map[int]prec{}
+	for k := 1; k < 14; k++ {
+		nilPrev[k] = w.mk(fmt.Sprintf("N%d", k), int64(k), A[k].BH, nil, "", true, false)
+	}
 	// invalid as a last proof: state height != manifest height
 	invalidLast := map[int]prec{}
 	for k := 1; k < 14; k++ {
@@ -274,7 +287,7 @@ func genCases(w *world, seed uint64, n int) []ccase {
 		return g
 	}
 	kinds := []string{"honest", "honest", "missing", "error", "dup-prev", "dup-next", "below-local", "above-last", "foreign", "foreign-tail",
-		"bad-tree", "same-block-height", "late-genesis", "last-foreign", "last-invalid", "last-error", "last-not-updated", "last-older", "cand-error", "swapped", "last-huge"}
+		"bad-tree", "same-block-height", "late-genesis", "nil-previous", "last-foreign", "last-invalid", "last-error", "last-not-updated", "last-older", "cand-error", "swapped", "last-huge"}
 	var out []ccase
 	add := func(c ccase) {
 		c.Idx = len(out)
@@ -304,6 +317,12 @@ func genCases(w *world, seed uint64, n int) []ccase {
 		g2[0] = gresp{Kind: 2, P: &A[1]}
 		add(ccase{Local: &A[2], Last: 2, LastP: &A[7], Get: g2, Limit: 100, CandOK: true, Kind: "corpus-below-local"})
 		add(ccase{Local: nil, Last: 2, LastP: &A[3], Get: append([]gresp{{Kind: 2, P: &lateGenesis}}, mkGet(1, 3, A)...), Limit: 2, CandOK: true, Kind: "corpus-late-genesis"})
+	}
+	{
+		g := mkGet(3, 7, A)
+		p := nilPrev[5]
+		g[2] = gresp{Kind: 2, P: &p}
+		add(ccase{Local: &A[2], Last: 2, LastP: &A[7], Get: g, Limit: 3, CandOK: true, Kind: "corpus-nil-previous"})
 	}
 	for len(out) < n {
 		kind := kinds[r.Intn(len(kinds))]
@@ -370,6 +389,11 @@ func genCases(w *world, seed uint64, n int) []ccase {
 		case "same-block-height":
 			if from+at >= 1 {
 				p := sameHeight[from+at]
+				c.Get[at] = gresp{Kind: 2, P: &p}
+			}
+		case "nil-previous":
+			if from+at >= 1 {
+				p := nilPrev[from+at]
 				c.Get[at] = gresp{Kind: 2, P: &p}
 			}
 		case "late-genesis":
